@@ -29,6 +29,11 @@ def obligations():
         except Exception as e:
             ok, det = False, {"name": name, "exception": repr(e), "replayed": True}
         obs.append(Ob(f"registry[{name}]->{cls}(ovo={ovo})", PROVED if ok else REFUTED, "enumeration", "P", det, fn=fn))
+    # a name denotes a FRESH objective at every resolution: two models built from the same name never share a (mutable) object,
+    # so what one caller does to its objective cannot change what the name means for the next one
+    shared = [n for n in sorted(spec.REGISTRY) if U._str_to_gemini(n) is U._str_to_gemini(n)]
+    obs.append(Ob("registry: every resolution of a name returns a new object (no shared / memoised instance)",
+                  PROVED if not shared else REFUTED, "enumeration", "P", {"names resolved to a shared object": shared, "replayed": bool(shared)}, fn=fn))
     # unknown names are rejected
     try:
         U._str_to_gemini("not_a_gemini")
